@@ -50,7 +50,11 @@ contracts.update({
         # value is exactly digits x unit (no overflow anywhere: the signed-overflow obligations of the extracted body)
         "__CPROVER_ensures(__CPROVER_return_value ==> (g_result > 0 && g_unit_off <= g_N && FACTOR(input + g_unit_off) != 0))\n" +
         "".join("__CPROVER_ensures((__CPROVER_return_value && %s) ==> *value == g_result * %s)\n" % (u, f) for u, f in UNITS) +
-        "__CPROVER_ensures(!__CPROVER_return_value ==> (*value == __CPROVER_old(*value) && (g_result == 0 || FACTOR(input + g_unit_off) == 0)))\n",
+        "__CPROVER_ensures(!__CPROVER_return_value ==> *value == __CPROVER_old(*value))\n"
+        # rejected only for: no/zero/too large number (ghost never set), unknown unit, or a product that does not fit
+        "__CPROVER_ensures(!__CPROVER_return_value ==> (g_result == 0 || FACTOR(input + g_unit_off) == 0" +
+        "".join(" || (%s && g_result > INT64_MAX / %s)" % (u, f) for u, f in UNITS) + "))\n" +
+        "".join("__CPROVER_ensures((__CPROVER_return_value && %s) ==> g_result <= INT64_MAX / %s)\n" % (u, f) for u, f in UNITS),
         "loops": {
             1: "__CPROVER_assigns(input)\n"
                "__CPROVER_loop_invariant(__CPROVER_same_object(input, __CPROVER_loop_entry(input)) && POFF(input) <= g_N)\n"
@@ -71,9 +75,9 @@ void h_Timeout_decimal_bounded(void)
   /* oracle: blank* digit+ unit */
   unsigned i = 0; long d = 0; unsigned nd = 0;
   while (s[i] == ' ' || (s[i] >= 9 && s[i] <= 13)) i++;
-  while (s[i] >= '0' && s[i] <= '9') { d = d * 10 + (s[i] - '0'); i++; nd++; }
+  while (s[i] >= '0' && s[i] <= '9') { d = d * 10 + (s[i] - '0'); i++; nd++; }     /* at most 7 digits: no overflow */
   long f = FACTOR(s + i);
-  bool expect = nd > 0 && d != 0 && f != 0;
+  bool expect = nd > 0 && d != 0 && f != 0 && d <= INT64_MAX / (f == 0 ? 1 : f);
   __CPROVER_assert(ok == expect, "DECIMAL: accepted exactly for blank* digit+ unit with a non-zero number");
   __CPROVER_assert((ok && f == 1L) ==> v == d, "DECIMAL: ns");
   __CPROVER_assert((ok && f == 1000L) ==> v == d * 1000L, "DECIMAL: us");
